@@ -30,7 +30,7 @@ def quote_if_needed(x):
     if isinstance(x, str):
         if not _BARE_PATH_STEP_RE.match(x) or x in _PATTERN_KEYWORDS:
             if not x.startswith("'"):
-                return "'" + x + "'"
+                return "'" + escape_quotes_and_backslashes(x) + "'"
     return x
 
 
